@@ -190,6 +190,24 @@ def gen_cases(rng, tier, h):
                     cases.append(c)
                     c = []
                 continue
+            if nm.endswith("_contains") and i % 4 == 1:
+                # a point ON a face / corner of the box (every component equal to lower or upper of its axis), also for
+                # inverted (empty) boxes: nothing is inside an empty box, not even its own `lower`
+                (bn, bt), (qn, qt) = params[0], params[1]
+                box = _gen_value(rng, bt, fields, style)
+                half = len(box) // 2
+                box = [x if abs(x) != INF else 1.0 for x in box]
+                if i % 8 == 1:     # invert one axis
+                    k = rng.randrange(half)
+                    lo_, up_ = max(box[k], box[half + k]) + 1.0, min(box[k], box[half + k])
+                    box[k], box[half + k] = lo_, up_
+                npt = len(_gen_value(rng, qt, fields, style))
+                pt = [rng.pick([box[k], box[half + k]]) for k in range(min(half, npt))] + [0.0] * max(0, npt - half)
+                c.append(nm + " " + " ".join(f2h(x) for x in box + pt))
+                if len(c) == 20:
+                    cases.append(c)
+                    c = []
+                continue
             for pn, t in params:
                 v = _gen_value(rng, t, fields, style)
                 if nm.startswith("ray_") and pn == "dir" and rng.chance(0.7):
